@@ -343,7 +343,11 @@ func (m *monitor) leak(where string, h hit, detail map[string]interface{}) {
 	detail["literal_kind"] = string(h.Info.Kind)
 	detail["slot"] = h.Info.Slot
 	detail["part"] = h.Info.Part
-	m.r.Violation(fmt.Sprintf("%s literal=%s position=%s", where, h.Info.Kind, position(h.Info.Kind, h.Info.Slot)), detail)
+	kind := string(h.Info.Kind)
+	if strings.HasSuffix(h.Info.Part, "unrepresentable") {
+		kind += "(not-representable-as-a-go-number)"
+	}
+	m.r.Violation(fmt.Sprintf("%s literal=%s position=%s", where, kind, position(h.Info.Kind, h.Info.Slot)), detail)
 }
 
 // Run is the C16 monitor.
